@@ -917,6 +917,60 @@ func c10conversions(c *Ctx) {
 			}
 		}
 		have[f["from"]+">"+f["to"]+"/"+f["format"]] = true
+		// the function delivers the Go type the target IO type stands for, and
+		// asserts the Go type of its source IO type (the next convert in a chain
+		// asserts exactly that type)
+		goType := map[string]string{"string": "string", "int64": "int64", "bool": "bool", "float64": "float64"}
+		fl, isLit := kv.Value.(*ast.FuncLit)
+		if !isLit {
+			continue
+		}
+		tag := "conversion " + f["from"] + "→" + f["to"] + "/" + f["format"]
+		if want, ok := goType[f["to"]]; ok {
+			good := true
+			got := ""
+			ast.Inspect(fl.Body, func(n ast.Node) bool {
+				if _, nested := n.(*ast.FuncLit); nested {
+					return false
+				}
+				rs, ok := n.(*ast.ReturnStmt)
+				if !ok || len(rs.Results) == 0 {
+					return true
+				}
+				t := tp.TypesInfo.TypeOf(rs.Results[0])
+				if tu, isTuple := t.(*types.Tuple); isTuple && tu.Len() > 0 {
+					t = tu.At(0).Type()
+				}
+				if t == nil {
+					return true
+				}
+				if b, isBasic := t.(*types.Basic); isBasic && b.Kind() == types.UntypedNil {
+					return true
+				}
+				ts := t.String()
+				if b, isBasic := t.(*types.Basic); isBasic && b.Info()&types.IsUntyped != 0 {
+					ts = types.Default(t).String()
+				}
+				if ts != want {
+					good = false
+					got = ts
+				}
+				return true
+			})
+			c.R.Check(good, tag+" result type", c.pos(fl.Pos()), "returns a Go "+want, "returns a Go "+got+" where the "+f["to"]+" IO type is a Go "+want+": the next conversion or a typed comparison no longer recognises the value")
+		}
+		if want, ok := goType[f["from"]]; ok {
+			good := false
+			ast.Inspect(fl.Body, func(n ast.Node) bool {
+				if ta, ok := n.(*ast.TypeAssertExpr); ok && ta.Type != nil {
+					if t := tp.TypesInfo.TypeOf(ta.Type); t != nil && t.String() == want {
+						good = true
+					}
+				}
+				return true
+			})
+			c.R.Check(good, tag+" input type", c.pos(fl.Pos()), "asserts a Go "+want+" input", "does not assert the Go type ("+want+") of its source IO type")
+		}
 	}
 	scalars := []string{"string", "int64", "bool", "float64"}
 	var missing []string
